@@ -379,10 +379,11 @@ def run_case(case: dict, prop: str) -> Outcome:
             yaml.dump(_render(f, base), fh, Dumper=_Dumper, default_flow_style=False)
         paths.append(p)
     args = ["run"] + paths
-    for s in case["sets"]:
-        args += ["--set", _set_arg(s)]
+    for k, s in enumerate(case["sets"]):
+        # both spellings click accepts
+        args += ["--set", _set_arg(s)] if (k + len(case["files"])) % 2 else ["--set=" + _set_arg(s)]
     if case["flag"]:
-        args += ["--service", case["flag"]]
+        args += [["--service", case["flag"]], ["-s", case["flag"]], ["--service=" + case["flag"]]][(len(case["sets"]) + len(case["files"])) % 3]
     try:
         exp: Any = expected_call(case, base)
     except ExpectedError as exc:
